@@ -207,5 +207,11 @@ func runC04(r *run) {
 			r.sample(map[string]any{"record": encDescribe(c), "line": string(line)})
 		}
 	}
+	// the quoting functions themselves, and the standard readers of their output
+	nq := 1500
+	if r.tier == "thorough" {
+		nq = 30000
+	}
+	quoteProbes(r, g, true, nq)
 	slog.VerifResetGlobals()
 }
